@@ -18,6 +18,9 @@ use crate::{
 
 pub mod iterator;
 
+#[cfg(nomt_verif)]
+pub(crate) mod allocator;
+#[cfg(not(nomt_verif))]
 mod allocator;
 mod branch;
 mod index;
